@@ -130,6 +130,8 @@ def track_step(t, op):
         if lst != list(op[1]):
             raise AssertionError("the caller's list was modified")
         return r
+    if tg == "add_pairs":    # a chord as nested [name, octave] lists
+        return t.add_notes([list(x) for x in op[1]], num(op[2]))
     if tg == "add_raw":      # a plain Python list of Note objects, in the order given (not sorted as a NoteContainer would be)
         return t.add_notes([to_py(i) for i in op[1]], num(op[2]))
     if tg == "add_copy":     # NoteContainer(earlier_container): a chord built from another chord of the same track
